@@ -214,7 +214,7 @@ class Bits:
                 while (j + 1 < w and isinstance(bs[j + 1], tuple) and bs[j + 1][0] == x[0]
                        and bs[j + 1][1] == x[1] and bs[j + 1][2] == bs[j][2] + 1):
                     j += 1
-                parts.append("[%d:%d]=%sbyte%d[%d:%d]" % (i, j + 1, "~" if x[0] == "n" else "", x[1], x[2], bs[j][2] + 1))
+                parts.append("[%d:%d]=%s%s[%d:%d]" % (i, j + 1, "~" if x[0] == "n" else "", _wname(x[1]), x[2], bs[j][2] + 1))
                 i = j + 1
             else:
                 j = i
@@ -224,10 +224,14 @@ class Bits:
                 i = j + 1
         e = self.ext
         if isinstance(e, tuple):
-            es = "sign=%sbyte%d.%d" % ("~" if e[0] == "n" else "", e[1], e[2])
+            es = "sign=%s%s.%d" % ("~" if e[0] == "n" else "", _wname(e[1]), e[2])
         else:
             es = "ext=%s" % e
         return " ".join(parts) + " " + es
+
+
+def _wname(w):
+    return "byte%d" % w if isinstance(w, int) else str(w)
 
 
 def src_byte(k):
